@@ -1,6 +1,7 @@
 (* C08, "an unterminated block is rejected": the tokens of complete statements followed by an @if
    or @each whose @end is missing - nested to any depth, each level holding any complete
-   statements before the next open block - and then the end of the input, always end in errors.
+   statements before the next open block - or by a {{ c / {{ x = c whose closing braces are
+   missing, and then the end of the input, always end in errors.
    (Cuts at statement boundaries; a cut inside an expression, string or comment is the subject of
    ParseReject.v / ParseTotal.v: ILLEGAL tokens and "a program or an error".) *)
 From Coq Require Import String Lia.
@@ -9,7 +10,9 @@ From TW Require Import Bytes GenToken GenParser Lexer Ast Parser GenTie Pratt Pa
 (* ---------- open blocks *)
 Inductive ost :=
 | OIf (kw lp rp : token) (c : cst) (body : list sst) (inner : option ost)                (* @if(c) body inner? <EOF> *)
-| OEach (kw lp var inn rp : token) (c : cst) (body : list sst) (inner : option ost).     (* @each(v in c) body inner? <EOF> *)
+| OEach (kw lp var inn rp : token) (c : cst) (body : list sst) (inner : option ost)      (* @each(v in c) body inner? <EOF> *)
+| OCode (lb : token) (c : cst)                                                           (* {{ c <EOF> *)
+| OAssign (lb id eq : token) (c : cst).                                                  (* {{ x = c <EOF> *)
 
 Fixpoint flat_o (o : ost) : list token :=
   match o with
@@ -17,6 +20,8 @@ Fixpoint flat_o (o : ost) : list token :=
     kw :: lp :: flat c ++ rp :: flats body ++ match inner with Some o' => flat_o o' | None => [] end
   | OEach kw lp var inn rp c body inner =>
     kw :: lp :: var :: inn :: flat c ++ rp :: flats body ++ match inner with Some o' => flat_o o' | None => [] end
+  | OCode lb c => lb :: flat c
+  | OAssign lb id eq c => lb :: id :: eq :: flat c
   end.
 
 Fixpoint wf_o (o : ost) : Prop :=
@@ -27,14 +32,39 @@ Fixpoint wf_o (o : ost) : Prop :=
   | OEach kw lp var inn rp c body inner =>
     ttype kw = T_EACH /\ ttype lp = T_LPAREN /\ ttype inn = T_IN /\ ttype rp = T_RPAREN /\ wf c /\ wf_ss body /\
     match inner with Some o' => wf_o o' | None => True end
+  | OCode lb c => ttype lb = T_LBRACES /\ wf c
+  | OAssign lb id eq c => ttype lb = T_LBRACES /\ ttype id = T_IDENT /\ ttype eq = T_ASSIGN /\ wf c
   end.
+
+Lemma lastc_not_rbraces c : wf c -> tok_eqb (ttype (lastc c)) T_RBRACES = false.
+Proof.
+  induction c as [t|lp rp c IHc|o c1 c2 IHc1 IHc2|o c IHc|o c IHc|q col c1 c2 c3 IHc1 IHc2 IHc3|lb rb c1 c2 IHc1 IHc2|dot name c IHc|dot name lp rp c args IHc IHargs|lb rb els IHels] using cst_ind';
+    cbn [wf lastc].
+  - intro W. unfold atom_ast in W. destruct (ttype t); try reflexivity. cbn in W. congruence.
+  - intros (_ & H & _). rewrite H. reflexivity.
+  - intros (_ & _ & W & _). exact (IHc2 W).
+  - intros (_ & W & _). exact (IHc W).
+  - intros (H & _). destruct (ttype o); try reflexivity. discriminate H.
+  - intros (_ & _ & _ & _ & W & _). exact (IHc3 W).
+  - intros (_ & H & _). rewrite H. reflexivity.
+  - intros (_ & H & _). rewrite H. reflexivity.
+  - intros (_ & _ & _ & H & _). rewrite H. reflexivity.
+  - intros (_ & H & _). rewrite H. reflexivity.
+Qed.
 
 Section WithEof.
 Variable eof : token.
 Hypothesis Heof : ttype eof = T_EOF.
 
-(* the parser stands on the end of the input with at least one error recorded *)
-Definition Open (st sf : pstate) : Prop := toks sf = [eof] /\ errs sf <> [] /\ ppanic sf = ppanic st.
+(* the parser stands on the end of the input, or on the last token before it, with at least one error recorded *)
+Definition Open (st sf : pstate) : Prop :=
+  peekT sf = eof /\ toks (advance sf) = [eof] /\ tok_eqb (ttype (curT sf)) T_ILLEGAL = false /\
+  errs sf <> [] /\ ppanic sf = ppanic st.
+
+Lemma errs_advance s : errs (advance s) = errs s.
+Proof. unfold advance. destruct (toks s) as [|a [|b r]]; reflexivity. Qed.
+Lemma ppanic_advance s : ppanic (advance s) = ppanic s.
+Proof. unfold advance. destruct (toks s) as [|a [|b r]]; reflexivity. Qed.
 
 Lemma at_eof_cur s : toks s = [eof] -> curT s = eof.
 Proof. intro H. unfold curT. rewrite H. reflexivity. Qed.
@@ -75,17 +105,16 @@ Proof.
   intros Hin. induction ss as [|s ss IH]; intros W st acc.
   - cbn [flats map concat app asts filter]. rewrite app_nil_r.
     destruct inner as [o|]; cbn [tail_of].
-    + destruct Hin as [Wo Ho]. destruct (Ho st) as (sf & Hc & Ht & He & Hp).
+    + destruct Hin as [Wo Ho]. destruct (Ho st) as (sf & Hc & Hpk & Hadv & Hill & He & Hp).
       destruct (flat_o_cons o Wo) as (a & r & Ea & Ga & Ba & _).
-      exists sf. split; [|repeat split; assumption].
+      exists (advance sf). split; [|split; [exact Hadv|split; [rewrite ppanic_advance; exact Hp|rewrite errs_advance; exact He]]].
       eapply (conv_bind (fun f => parseStatement f (setToks st (flat_o o ++ [eof])))
                         (fun f x st1 =>
                            let acc' := if stmt_is_null x then acc else x :: acc in
                            if peekIn st1 block_break_tokens then POk (rev acc') st1 else blockLoop f acc' (advance st1))).
       * exact Hc.
-      * cbv beta zeta. cbn [stmt_is_null]. unfold peekIn. rewrite (at_eof_peek sf Ht), Heof. cbv match.
-        rewrite (at_eof_advance sf Ht).
-        exists 1%nat. intros fuel Hf. destruct fuel as [|f]; [lia|]. cbn [blockLoop]. rewrite (at_eof_cur sf Ht), Heof. reflexivity.
+      * cbv beta zeta. cbn [stmt_is_null]. unfold peekIn. rewrite Hpk, Heof. cbv match.
+        exists 1%nat. intros fuel Hf. destruct fuel as [|f]; [lia|]. cbn [blockLoop]. rewrite (at_eof_cur _ Hadv), Heof. reflexivity.
       * intro f. cbn [blockLoop]. rewrite Ea. cbn [app]. rewrite curT_cons, Ga. reflexivity.
     + exists (setToks st [eof]). split; [|repeat split].
       exists 1%nat. intros fuel Hf. destruct fuel as [|f]; [lia|]. cbn [blockLoop app]. rewrite curT_cons, Heof. reflexivity.
@@ -157,7 +186,7 @@ Qed.
 
 Theorem open_parses : forall o, wf_o o -> Po o.
 Proof.
-  fix IHo 1. intros o W st. destruct o as [kw lp rp c body inner|kw lp var inn rp c body inner].
+  fix IHo 1. intros o W st. destruct o as [kw lp rp c body inner|kw lp var inn rp c body inner|lb c|lb id eq c].
   - (* @if *)
     destruct W as (Hkw & Hlp & Hrp & Wc & Wb & Wi).
     assert (Hin : match inner with Some o => wf_o o /\ Po o | None => True end).
@@ -169,7 +198,8 @@ Proof.
     rewrite Etoks.
     destruct (open_body inner Hin body Wb st rp) as (sf & Hb & Ht & Hp & He). fold R in Hb.
     destruct (expect_end_fails sf Ht) as (s' & Ee & At & Ae & Ap).
-    exists s'. split; [|split; [exact At|split; [exact Ae|congruence]]].
+    exists s'. split; [|split; [exact (at_eof_peek s' At)|split; [rewrite (at_eof_advance s' At); exact At|
+                       split; [rewrite (at_eof_cur s' At), Heof; reflexivity|split; [exact Ae|congruence]]]]].
     destruct (flat_nonempty c) as (c0 & cr & Ec).
     apply (conv_shift (fun f =>
       match parseExpression f P_LOWEST (setToks st (flat c ++ rp :: R)) with
@@ -216,7 +246,8 @@ Proof.
     rewrite Etoks.
     destruct (open_body inner Hin body Wb st rp) as (sf & Hb & Ht & Hp & He). fold R in Hb.
     destruct (expect_end_fails sf Ht) as (s' & Ee & At & Ae & Ap).
-    exists s'. split; [|split; [exact At|split; [exact Ae|congruence]]].
+    exists s'. split; [|split; [exact (at_eof_peek s' At)|split; [rewrite (at_eof_advance s' At); exact At|
+                       split; [rewrite (at_eof_cur s' At), Heof; reflexivity|split; [exact Ae|congruence]]]]].
     destruct (flat_nonempty c) as (c0 & cr & Ec).
     apply (conv_shift (fun f =>
       match parseExpression f P_LOWEST (setToks st (flat c ++ rp :: R)) with
@@ -241,6 +272,55 @@ Proof.
     eapply (conv_bind0 _ _ (asts body) sf); [exact Hb|].
     cbv beta. unfold peekIs. rewrite (at_eof_peek sf Ht), Heof. change (tok_eqb T_EOF T_ELSE) with false. cbv match.
     rewrite Ee. apply conv_const.
+  - (* {{ c *)
+    destruct W as (Hlb & Wc). cbn [flat_o app].
+    destruct (first_not_rbraces c Wc) as (a & r' & Ea & Ha).
+    destruct (tokenString T_RBRACES) as [ta|] eqn:Eta; [|discriminate Eta].
+    destruct (tokenString T_EOF) as [tb|] eqn:Etb; [|discriminate Etb].
+    exists (addErr (setToks st [lastc c; eof]) (eline eof) (fmt ErrWrongNextToken [ta; tb])).
+    split; [|split; [reflexivity|split; [reflexivity|split; [exact (lastc_legal c Wc)|split; [discriminate|reflexivity]]]]].
+    apply (conv_shift (fun f => parseBracesStmt f (setToks st (lb :: flat c ++ [eof])))).
+    { intro f. exact (parseStatement_at f st lb _ T_LBRACES Hlb). }
+    unfold parseBracesStmt.
+    eapply (conv_bind0 (fun f => parseEmbeddedCode f (setToks st (lb :: flat c ++ [eof]))) _ (SExpr (ast c)) (setToks st [lastc c; eof])).
+    + eapply (conv_ext _ (fun f => match parseExpression f P_LOWEST (setToks st (flat c ++ [eof])) with
+                                   | POk e st1 => POk (SExpr e) (if peekIs st1 T_RBRACES then advance st1 else st1)
+                                   | POOF => POOF end)).
+      { intro f. unfold parseEmbeddedCode. rewrite Ea. cbn [app]. rewrite advance_cons.
+        unfold curIs. rewrite curT_cons, Ha. cbv match.
+        assert (C2 : tok_eqb (ttype a) T_IDENT && peekIs (setToks st (a :: r' ++ [eof])) T_ASSIGN = false).
+        { apply andb_false_iff. right. unfold peekIs, peekT. cbn [toks setToks].
+          destruct r' as [|b r'']; cbn [app].
+          - rewrite Heof. reflexivity.
+          - assert (N : ttype b <> T_ASSIGN) by (apply (no_assign c Wc); rewrite Ea; right; left; reflexivity).
+            destruct (ttype b); try reflexivity. congruence. }
+        rewrite C2. reflexivity. }
+      eapply (conv_bind0 (fun f => parseExpression f P_LOWEST (setToks st (flat c ++ [eof])))
+                         (fun f e st1 => POk (SExpr e) (if peekIs st1 T_RBRACES then advance st1 else st1))).
+      * apply parse_of_tokens_is_the_tree; [exact Wc|right; right; rewrite Heof; reflexivity|].
+        intros _. cbn [not_lparen]. rewrite Heof. discriminate.
+      * cbv beta. rewrite peekIs_cons, Heof. change (tok_eqb T_EOF T_RBRACES) with false. cbv match. apply conv_const.
+    + cbv beta. cbn [errs setToks]. rewrite Nat.eqb_refl. cbn [negb orb].
+      unfold curIs. rewrite curT_cons. rewrite (lastc_not_rbraces c Wc). cbn [orb].
+      rewrite peekIn_cons, Heof. cbv match. rewrite peekT_cons, Heof, Eta, Etb. apply conv_const.
+  - (* {{ x = c *)
+    destruct W as (Hlb & Hid & Heq & Wc). cbn [flat_o app].
+    destruct (tokenString T_RBRACES) as [ta|] eqn:Eta; [|discriminate Eta].
+    destruct (tokenString T_EOF) as [tb|] eqn:Etb; [|discriminate Etb].
+    exists (addErr (setToks st [lastc c; eof]) (eline eof) (fmt ErrWrongNextToken [ta; tb])).
+    split; [|split; [reflexivity|split; [reflexivity|split; [exact (lastc_legal c Wc)|split; [discriminate|reflexivity]]]]].
+    apply (conv_shift (fun f => parseBracesStmt f (setToks st (lb :: id :: eq :: flat c ++ [eof])))).
+    { intro f. exact (parseStatement_at f st lb _ T_LBRACES Hlb). }
+    unfold parseBracesStmt.
+    eapply (conv_bind0 (fun f => parseEmbeddedCode f (setToks st (lb :: id :: eq :: flat c ++ [eof]))) _
+                       (SAssign (eline id) (tlit id) (ast c)) (setToks st [lastc c; eof])).
+    + apply header_assign_parses; try assumption.
+      * right; right. rewrite Heof. reflexivity.
+      * cbn [not_lparen]. rewrite Heof. discriminate.
+      * discriminate.
+    + cbv beta. cbn [errs setToks]. rewrite Nat.eqb_refl. cbn [negb orb].
+      unfold curIs. rewrite curT_cons. rewrite (lastc_not_rbraces c Wc). cbn [orb].
+      rewrite peekIn_cons, Heof. cbv match. rewrite peekT_cons, Heof, Eta, Etb. apply conv_const.
 Qed.
 
 (* ---------- whole inputs: complete statements, then an open block, then the end *)
@@ -250,20 +330,19 @@ Lemma open_program o : wf_o o -> forall pre, wf_ss pre -> forall st acc,
 Proof.
   intros Wo. induction pre as [|s ss IH]; intros W st acc.
   - cbn [flats map concat app].
-    destruct (open_parses o Wo st) as (sf & Hc & Ht & He & Hp).
+    destruct (open_parses o Wo st) as (sf & Hc & Hpk & Hadv & Hill & He & Hp).
     destruct (flat_o_cons o Wo) as (a & r & Ea & Ga & _).
     assert (NE : tok_eqb (ttype a) T_EOF = false).
     { destruct (tok_eqb (ttype a) T_EOF) eqn:X; [|reflexivity]. apply ParseTotal.tok_eqb_eq in X. rewrite X in Ga. discriminate Ga. }
-    exists sf, (Some (rev acc)). split; [|split; assumption].
+    exists (advance sf), (Some (rev acc)). split; [|split; [rewrite errs_advance; exact He|rewrite ppanic_advance; exact Hp]].
     eapply (conv_bind (fun f => parseStatement f (setToks st (flat_o o ++ [eof])))
                       (fun f x st1 =>
                          if curIs st1 T_ILLEGAL
                          then POk None (addErr st1 (eline (curT st1)) (fmt ErrIllegalToken [tlit (curT st1)]))
                          else programLoop f (if stmt_is_null x then acc else x :: acc) (advance st1))).
     + exact Hc.
-    + cbv beta. unfold curIs. rewrite (at_eof_cur sf Ht), Heof. change (tok_eqb T_EOF T_ILLEGAL) with false. cbv match.
-      rewrite (at_eof_advance sf Ht). cbn [stmt_is_null].
-      exists 1%nat. intros fuel Hf. destruct fuel as [|f]; [lia|]. cbn [programLoop]. unfold curIs. rewrite (at_eof_cur sf Ht), Heof. reflexivity.
+    + cbv beta. unfold curIs. rewrite Hill. cbv match. cbn [stmt_is_null].
+      exists 1%nat. intros fuel Hf. destruct fuel as [|f]; [lia|]. cbn [programLoop]. unfold curIs. rewrite (at_eof_cur _ Hadv), Heof. reflexivity.
     + intro f. cbn [programLoop]. rewrite Ea. cbn [app]. unfold curIs at 1. rewrite curT_cons, NE. reflexivity.
   - pose proof W as (Ws & W' & Wa).
     destruct (flat_s_cons s Ws) as (a & r & Ea & Ga & Ba).
